@@ -72,7 +72,28 @@ def run_case(case):
                 # proposals in bound sh that were thrown away because a later
                 # bound contains them
                 pass
-        so.check_partition(s, res, name)
+        # with dozens of bounds (tiny-batch stratum) the full predicate costs
+        # O(shells^2) contains() calls: evaluate it at every bound insertion,
+        # every checkpoint write and every (n_bounds/6)-th batch
+        nb = len(s.bounds)
+        if not (nb > 12 and name == 'add_samples' and
+                st['events'] % max(1, nb // 6) != 0):
+            so.check_partition(s, res, name)
+        # "whenever a checkpoint is written": what a new process would load
+        # from the file right now satisfies the invariant as well
+        if name in ('write', 'write_shell_update'):
+            st['writes'] = st.get('writes', 0) + 1
+            if st['writes'] % 6 == 1 and st.get('peeks', 0) < 12 and (
+                    nb <= 12 or name == 'write'):
+                st['peeks'] = st.get('peeks', 0) + 1
+                try:
+                    s2 = lab.peek()
+                except AttributeError:
+                    raise
+                except Exception as e:
+                    res.viol('checkpoint-unloadable', name, repr(e))
+                    return
+                so.check_partition(s2, res, 'file-after-' + name)
 
     def on_op(lab, op, out):
         s = lab.sampler
@@ -106,6 +127,7 @@ def run_case(case):
     res.cls('sampler_pool', str(case['cfg']['pool']).startswith('spool'))
     res.cls('bounds>=3', st['n_bounds'] >= 3)
     res.count('observation-instants', st['events'])
+    res.count('checkpoint-loads', st.get('peeks', 0))
     res.nontrivial = bool((st['moved'] > 0 and st['reentered'] > 0) or
                           st['rejected_later'] > 0)
     return res
@@ -116,4 +138,5 @@ def replay(case):
 
 
 def shard(ctx, tier, i, n):
-    hyp_generate(ctx, strategy(), run_case, plan(tier)['examples'])
+    hyp_generate(ctx, strategy(), run_case, plan(tier)['examples'],
+                 case_timeout=150)
